@@ -1023,14 +1023,18 @@ class Context:
         # is needed to be set for the dependencies of the plugin.
         for last_provide in plugin.lineage:
             p = self.__get_plugin("0", last_provide)
-            if not (set(p.depends_on) & set(chunk_number)):
-                continue
-
-            if issubclass(p.__class__, NOT_PER_CHUNK_ALLOWED_PLUGINS):
+            # Plugins that need neighbouring chunks can not be computed per chunk,
+            # no matter how far downstream of the per-chunk data type they are
+            if issubclass(p.__class__, NOT_PER_CHUNK_ALLOWED_PLUGINS) and (
+                self.get_dependencies(last_provide) & set(chunk_number)
+            ):
                 raise ValueError(
                     f"Can not load per-chunk storage from {chunk_number} for {p.__class__} "
                     f"because it is subclass of one of {NOT_PER_CHUNK_ALLOWED_PLUGINS}!"
                 )
+
+            if not (set(p.depends_on) & set(chunk_number)):
+                continue
 
             # Set chunk_number in the lineage
             for d in p.depends_on:
